@@ -592,8 +592,15 @@ fn gen_cases(ctx: &Ctx) -> Vec<Case> {
         cases.push(Case::SecretLen(n));
     }
     // --- custom addrs ---
+    // every length 0..=70 (inline/heap cutoff at 30) and every length around each point where a narrower integer
+    // type would wrap (u8: 256, 512, 1024; u16: 65536) — a truncating cast before the cutoff comparison
+    // (seeded change C02-seed19) is only visible there
+    let mut lens: Vec<usize> = (0..=70).collect();
+    for base in [256usize, 512, 1024, 65536] {
+        lens.extend(base - 3..=base + 34);
+    }
     for id in [0u64, 1, 0xff, 1 << 32, u64::MAX] {
-        for len in 0..=70 {
+        for &len in &lens {
             cases.push(Case::Custom { id, len });
         }
     }
